@@ -507,6 +507,13 @@ def _compose_slices(outer_slice, inner_slice, dim_size):
         new_start = outer_start + inner_start * outer_step
         new_stop = outer_start + inner_stop * outer_step
         new_step = outer_step * inner_step
+        if new_step < 0:
+            # ``indices`` marks "before the first element" with -1, which a
+            # slice would read as "last element": translate it back.
+            if inner_start < 0 or outer_start < 0 or new_start < 0:
+                return slice(0, 0, None)
+            if new_stop < 0:
+                new_stop = None
     else:
         new_start = outer_start + inner_start
         new_stop = outer_start + inner_stop
